@@ -69,7 +69,7 @@ Unquote = z3.Function("Unquote", S, S)
 IdStr = z3.Function("IdStr", Val, S)          # str(id(v))
 FmtOpaque = {}                                # format string -> uninterpreted function
 
-TYPEBASE = 5_000_000       # ref of the class object of class id c is TYPEBASE + c
+TYPEBASE = 900_000_000_000       # ref of the class object of class id c is TYPEBASE + c
 ENUM_BASE = 900_000
 ALLOC_BASE = 1_000_000     # refs allocated on a path are concrete numerals >= ALLOC_BASE
 HOST_CLASS_BASE = 10_000   # class ids >= this are unknown host classes
@@ -553,7 +553,24 @@ class PathCtx:
             m = self.solver.model()
             fail = Failure(name, kind, "violated", model_txt=_model_text(m), model=m, detail=detail,
                            pc=list(self.pc), goal=g, meta=meta)
+        elif r == z3.unsat and _os.environ.get("PYVC_CROSSCHECK") and not self.lemmas and \
+                self.ex.by_backend.get("xc_total", 0) < int(_os.environ.get("PYVC_CROSSCHECK_MAX", "150")):
+            # thorough tier: the same quantifier-free query on the second back end
+            self.ex.by_backend["xc_total"] = self.ex.by_backend.get("xc_total", 0) + 1
+            r2 = _cvc5_check(self.solver, 20000)
+            if r2 == "unsat":
+                self.ex.by_backend["xc_agree"] = self.ex.by_backend.get("xc_agree", 0) + 1
+            elif r2 == "sat":
+                self.ex.by_backend["xc_disagree"] = self.ex.by_backend.get("xc_disagree", 0) + 1
+                fail = Failure(name, kind, "unknown", detail="back ends disagree: z3 unsat, cvc5 sat", pc=list(self.pc),
+                               goal=g, meta=meta)
+            else:
+                self.ex.by_backend["xc_unknown"] = self.ex.by_backend.get("xc_unknown", 0) + 1
         elif r == z3.unknown:
+            if _os.environ.get("PYVC_DUMP"):
+                import re as _re
+                with open(_os.path.join(_os.environ["PYVC_DUMP"], _re.sub(r"[^A-Za-z0-9_.-]", "_", name)[-120:] + ".smt2"), "w") as fh:
+                    fh.write(self.solver.to_smt2())
             r2 = _cvc5_check(self.solver, self.ex.timeout_ms)
             if r2 == "unsat":
                 self.ex.by_backend["cvc5"] = self.ex.by_backend.get("cvc5", 0) + 1
@@ -816,6 +833,13 @@ class State:
             self.alloc_class[rid] = cid
         self.typeof = z3.Store(self.typeof, z3.IntVal(rid), z3.IntVal(cid) if isinstance(cid, int) else cid)
         return rid
+
+    def reserve_region(self, size=1_000_000):
+        """A block of references for the (unboundedly many) objects a contracted callee or an abstracted loop
+        creates: nothing allocated before or afterwards lies in it."""
+        lo = self.next_id
+        self.next_id += size
+        return lo, self.next_id
 
     def register(self, obj):
         rid = self.alloc(self.table.id(obj.cid_name), data=False)
